@@ -70,6 +70,13 @@ type SpecFun struct {
 	Ret  string
 }
 
+// FieldPair: every object of struct type Type that gets field If assigned also gets field Then assigned.
+type FieldPair struct {
+	Type, If, Then string
+	Props          []string
+	Line           int
+}
+
 type SpecDefine struct {
 	Name   string
 	Params []string
@@ -112,6 +119,7 @@ type JournalPair struct {
 
 type SpecFile struct {
 	Journal   []*JournalPair
+	FieldPairs []*FieldPair
 	Immutable []string
 	ImmProps  []string
 	Covers    []*CoverSpec
@@ -386,6 +394,14 @@ func parseSpecFile(path, pkg string) (*SpecFile, error) {
 				return nil, fmt.Errorf("%s:%d: journal <mutator> <entryType>", path, p.line)
 			}
 			sf.Journal = append(sf.Journal, &JournalPair{Mutator: fs[0], Entry: fs[1], Props: props, Line: p.line})
+		case "fieldpair":
+			// fieldpair [props] <structType> <ifField> <thenField>
+			props, rest := parseProps(p.text)
+			fs := strings.Fields(rest)
+			if len(fs) != 3 {
+				return nil, fmt.Errorf("%s:%d: fieldpair <type> <ifField> <thenField>", path, p.line)
+			}
+			sf.FieldPairs = append(sf.FieldPairs, &FieldPair{Type: fs[0], If: fs[1], Then: fs[2], Props: props, Line: p.line})
 		case "immutable":
 			// immutable [props] v1 v2 ... : package-level variables assigned only by the initialiser
 			props, rest := parseProps(p.text)
